@@ -115,9 +115,9 @@ def block (kv : Kv) : Client → List Op
       ++ [.tmpUnlink kv.content, .logTrash kv.cur]
   | .compact p outs =>
     if validCompact kv p outs then
-      (outs.flatMap (fun o => [.tmpCreate o o, .tmpSync o]) ++ outs.map .link)
+      (outs.flatMap (fun o => [.tmpCreate o o, .tmpSync o]) ++ outs.map .link ++ outs.map .tmpUnlink)
         ++ [.maniAppend ⟨outs, kv.files.filter p⟩, .maniSync]
-        ++ ((kv.files.filter p).map .sstTrash ++ outs.map .tmpUnlink)
+        ++ (kv.files.filter p).map .sstTrash
     else []
   | .reopen =>
     if kv.content = [] then [.logTrash kv.cur, .logCreate (kv.cur + 1)]
